@@ -1,5 +1,6 @@
 """C38 — hy.gensym: lock discipline around the shared counter, reserved prefix, mangled result."""
 CANON = True
+LENIENT = False  # rules over .hy sources (own s-expression reader); no canonical form there
 
 import re
 
